@@ -9,7 +9,11 @@ PID = 'C13'
 Algorithm = runner.M['algorithm'].Algorithm
 CATS = ('kex', 'key', 'enc', 'mac')
 FMT = {'OpenSSH': 'SSH-2.0-OpenSSH_%s', 'Dropbear SSH': 'SSH-2.0-dropbear_%s', 'libssh': 'SSH-2.0-libssh-%s', 'TinySSH': 'SSH-2.0-tinyssh_%s'}
-UNRECOGNISED = [b'SSH-2.0-FrobSSH_1.0', b'SSH-2.0-', b'SSH-2.0-RomSShell_4.62', b'SSH-2.0-PuTTY_Release_0.80', b'SSH-2.0-OpenSSH']
+UNRECOGNISED = [b'SSH-2.0-FrobSSH_1.0', b'SSH-2.0-', b'SSH-2.0-RomSShell_4.62', b'SSH-2.0-PuTTY_Release_0.80', b'SSH-2.0-OpenSSH',
+                # other software whose name begins or ends like a product the database has versions for (libssh2 is not libssh)
+                b'SSH-2.0-libssh2_1.11.0', b'SSH-2.0-libssh2-1.4.3', b'SSH-2.0-libssh2_0.18', b'SSH-2.0-libsshd_1.0', b'SSH-2.0-libssh3_1.0', b'SSH-2.0-OpenSSHx_8.0',
+                b'SSH-2.0-XOpenSSH_8.9', b'SSH-2.0-openssh_8.9', b'SSH-2.0-dropbear2_2020.81', b'SSH-2.0-Dropbear_2020.81', b'SSH-2.0-mydropbear_2020.81', b'SSH-2.0-libssh',
+                b'SSH-2.0-OpenSSH_', b'SSH-2.0-dropbear_', b'SSH-2.0-libssh_x', b'SSH-2.0-AsyncSSH_2.14.0', b'SSH-2.0-paramiko_3.4.0', b'SSH-2.0-Go']
 SUFFIXES = {'Dropbear SSH': [b'_agbn_1', b'-Freesco-p49', b'_x'], 'OpenSSH': [b'p1 Debian-5', b'p2', b'p1', b' FreeBSD-20200214']}
 CONTROL_NOTE = 'A bug in OpenSSH causes it to fall back to a 2048-bit modulus'
 
@@ -381,6 +385,8 @@ def run(tier, seed):
     par.pmap(work_client, [(b, k) for b in bs[::4] for k in ('all', 'even', 'odd', 'clean', 'terrapin-hardened', 'unknowns', 'asym-c2s-weak', 'asym-s2c-weak')], stats=st, chunk=4)
     from props import delivery as _DL
     par.pmap(_DL.work, _DL.tasks(tier), extra=(('recs',),), stats=st, chunk=12)
+    from props import decor as _DC
+    par.pmap(_DC.work, _DC.tasks(tier), extra=(('recs',),), stats=st, chunk=8)
     vcases = []
     for (prod, version, banner), kind in H.pick(tasks, seed, 12 if tier == 'quick' else 60):
         vcases.append({'label': '%s %s' % (banner, kind), 'opts': ['-n'] + (['-j'] if len(vcases) % 2 else []), 'make': (lambda kind=kind, banner=banner: make_server(kind, banner)[0])})
